@@ -29,7 +29,7 @@ EXPLANATION = ('C12: a base file with two watchers and K<=3 edits from {add watc
                'env variable, change graceful_timeout, revert the previous edit, no edit}, each followed by reloadconfig (waiting). ')
 
 EDITS = ('none', 'add_c', 'rm_b', 'np_up', 'np_down', 'cmd', 'env', 'opt', 'revert', 'rm_c', 'np_b_up', 'cmd_b', 'cmd_both',
-         'rm_a_and_b', 'add_c_d', 'np_a_cmd_b', 'np_b_cmd_a')
+         'rm_a_and_b', 'add_c_d', 'np_a_cmd_b', 'np_b_cmd_a', 'bad_b')
 
 
 def render(model):
@@ -85,12 +85,14 @@ def apply_edit(model, e, history):
     elif e == 'add_c_d':
         m['c'] = {'cmd': 'progc', 'numprocesses': 1, 'graceful_timeout': '0.2'}
         m['d'] = {'cmd': 'progd', 'numprocesses': 1, 'graceful_timeout': '0.2'}
-    elif e in ('np_a_cmd_b', 'np_b_cmd_a'):
+    elif e in ('np_a_cmd_b', 'np_b_cmd_a', 'bad_b'):
         x, y = ('a', 'b') if e == 'np_a_cmd_b' else ('b', 'a')
         if x in m:
             m[x]['numprocesses'] += 1
         if y in m:
             m[y]['cmd'] = m[y]['cmd'] + 'y' if not m[y]['cmd'].endswith('y') else m[y]['cmd'][:-1]
+    elif e == 'bad_b' and 'b' in m:
+        m['b'] = dict(m['b'], singleton='True', numprocesses=2, cmd='progb_bad')     # refused by Watcher.load_from_config
     elif e == 'env' and 'a' in m:
         env = dict(m['a'].get('env') or {})
         env['MODE'] = 'x' if env.get('MODE') != 'x' else 'y'
@@ -158,6 +160,11 @@ def c12_reload(e1: int, e2: int, e3: int) -> bool:
                 r = w.call('reloadconfig', waiting=True, max_time=30.0)
                 w.quiesce()
                 w.run_for(0.5)
+                if 'singleton' in model.get('b', {}):
+                    # the file is invalid: the reload may fail, but the directory has to stay coherent (C15) -- nothing else is claimed
+                    if S.get('directory'):
+                        ok = coherent(w) and ok
+                    break
                 if not r.replies or r.status != 'ok':
                     rt.note('reloadconfig after %r: %r', e, r.reply)
                     ok = False
